@@ -386,6 +386,10 @@ def kani_counterexample(scratch_repo, pkg, harness, timeout_s=600, tests=False, 
     for (h, t) in tests_found:
         # call the harness by its full path so the test can be appended at the top of the module file
         t = re.sub(r"concrete_playback_run\(concrete_vals, \w+\)", "concrete_playback_run(concrete_vals, crate::%s)" % h, t)
+        # drop the generated doc comment: a multi-line assertion message makes it spill out of the `///` lines
+        k = t.find("#[test]")
+        if k > 0:
+            t = t[k:]
         out.append(t)
     return out, r
 
